@@ -1,8 +1,318 @@
+import Qentem.Model.Order
+import Qentem.Model.Sort
 import Qentem.Driver.Proto
+/-!
+Model driver for C15 (ops prefixed `ord`).  Same line protocol as `harness/order_harness.cpp`:
+string token = units joined by '.', the empty string is "e"; value token =
+`u | o<n>x<tag> | a<n>x<tag> | s:<str> | n<nat> | i<int> | r<16 hex> | t | f | z | p<token>`;
+lists are joined by ',', the empty list is "-".
+The `ordoracle*` ops evaluate the C15 predicates (the definitions the theorems are about) on
+results produced by the implementation.
+-/
 namespace Qentem.Driver.Order
-open Qentem.Driver
+open Qentem.Driver Qentem.Order Qentem.Sort
 
-/-- Stub: replaced by the area's model driver. `op` is the first token of the line. -/
-def handle (_op : String) (_args : List String) : String := "bad-op"
+def parseStr (s : String) : Option (List Nat) :=
+  if s == "e" then some [] else
+  match (s.splitOn ".").mapM (fun t => t.toNat?) with
+  | some [] => none
+  | r => r
+
+def showStr (l : List Nat) : String :=
+  if l.isEmpty then "e" else ".".intercalate (l.map toString)
+
+def hexVal (c : Char) : Option Nat :=
+  if '0' ≤ c ∧ c ≤ '9' then some (c.toNat - '0'.toNat)
+  else if 'a' ≤ c ∧ c ≤ 'f' then some (c.toNat - 'a'.toNat + 10)
+  else none
+
+def parseHex (s : String) : Option Nat :=
+  s.toList.foldlM (fun acc c => (hexVal c).map (fun d => acc * 16 + d)) 0
+
+/-- Monotone key of an IEEE-754 binary64 bit pattern; `none` for NaN. -/
+def realKey (bits : Nat) : Option Int :=
+  let mag := bits % 2 ^ 63
+  if mag > 0x7FF0000000000000 then none
+  else if bits / 2 ^ 63 % 2 == 1 then some (-(Int.ofNat mag)) else some (Int.ofNat mag)
+
+/-- Signed-char view of a unit (the order `char` comparisons see on this platform). -/
+def signedUnit (u : Nat) : Nat := (u + 128) % 256
+
+def parseSized (s : String) : Option Nat :=
+  match s.splitOn "x" with
+  | [n, _tag] => n.toNat?
+  | _ => none
+
+/-- Value token → model value. The first argument bounds the pointer nesting. -/
+def parseVal : Nat → List Char → Option JVal
+  | 0, _ => none
+  | _ + 1, ['u'] => some .undefined
+  | _ + 1, ['t'] => some .tru
+  | _ + 1, ['f'] => some .fls
+  | _ + 1, ['z'] => some .null
+  | _ + 1, 'n' :: rest => (String.ofList rest).toNat?.map .nat
+  | _ + 1, 'i' :: rest => (String.ofList rest).toInt?.map .int
+  | _ + 1, 'r' :: rest =>
+    if rest.length == 16 then (parseHex (String.ofList rest)).map (fun b => .real (realKey b)) else none
+  | _ + 1, 's' :: ':' :: rest => (parseStr (String.ofList rest)).map .str
+  | _ + 1, 'o' :: rest => (parseSized (String.ofList rest)).map .obj
+  | _ + 1, 'a' :: rest => (parseSized (String.ofList rest)).map .arr
+  | fuel + 1, 'p' :: rest => (parseVal fuel rest).map .ptr
+  | _ + 1, _ => none
+
+def parseValue (t : String) : Option JVal := parseVal (t.length + 1) t.toList
+
+def parseList (s : String) : List String := if s == "-" then [] else s.splitOn ","
+
+def showList (l : List String) : String := if l.isEmpty then "-" else ",".intercalate l
+
+def bitChar (b : Bool) : Char := if b then '1' else '0'
+
+def obsBits (o : Obs) : String :=
+  String.ofList [bitChar o.lt, bitChar o.le, bitChar o.gt, bitChar o.ge, bitChar o.eq, bitChar (!o.eq)]
+
+def optBit : Option Bool → String
+  | some true => "1"
+  | some false => "0"
+  | none => "X"
+
+/-- `ordstr`: the six operators (list model) and the four raw calls through the *cursor* models. -/
+def strLine (a b : List Nat) : String :=
+  let l := a.toArray
+  let r := b.toArray
+  -- operator== through the cursor model of IsEqual, as String::operator== calls it
+  let eqA := if l.size == r.size then isEqualA l r l.size 0 else some false
+  let o := obsStr a b
+  obsBits o ++ " " ++ optBit (isLessA l r l.size r.size false 0) ++ optBit (isLessA l r l.size r.size true 0) ++
+    optBit (isGreaterA l r l.size r.size false 0) ++ optBit (isGreaterA l r l.size r.size true 0) ++
+    (if eqA == some o.eq then "" else " cursor-eq-differs")
+
+def parseObs (s : String) : Option Obs :=
+  let bit (c : Char) : Option Bool := if c == '1' then some true else if c == '0' then some false else none
+  match s.toList with
+  | [a, b, c, d, e, f] => do
+      let lt ← bit a; let le ← bit b; let gt ← bit c; let ge ← bit d; let eq ← bit e; let ne ← bit f
+      if ne == !eq then some { lt, le, gt, ge, eq } else none
+  | _ => none
+
+/-! ### Sort -/
+
+/-- Sort tagged elements (the tag is the original token, so equivalent elements stay distinguishable). -/
+def sortTagged {β : Type} (lt gt : β → β → Bool) (asc : Bool) (elems : List (β × String)) : Option (List String) :=
+  (arraySort (fun x y => lt x.1 y.1) (fun x y => gt x.1 y.1) asc elems.toArray).map
+    (fun a => a.toList.map (·.2))
+
+def showBits (l : List Bool) : String := if l.isEmpty then "-" else String.ofList (l.map bitChar)
+
+/-- Tokens in sorted order followed by the comparison table of the result. -/
+def sortTaggedT {β : Type} (lt gt le ge : β → β → Bool) (asc : Bool) (elems : List (β × String)) : Option String :=
+  (arraySort (fun x y => lt x.1 y.1) (fun x y => gt x.1 y.1) asc elems.toArray).map
+    (fun a => showList (a.toList.map (·.2)) ++ " " ++
+      showBits (pairsTable (fun x y => if asc then lt x.1 y.1 else gt x.1 y.1) a.toList) ++ " " ++
+      showBits (chainTable (fun x y => if asc then le x.1 y.1 else ge x.1 y.1) a.toList))
+
+def sortValues (asc : Bool) (toks : List String) : String :=
+  match toks.mapM (fun t => (parseValue t).map (fun v => (v, t))) with
+  | none => "bad-op"
+  | some elems =>
+    match sortTaggedT Val.lt Val.gt Val.le Val.ge asc elems with
+    | some out => out
+    | none => "model-fault"
+
+def sortStrings (asc signed : Bool) (toks : List String) : String :=
+  match toks.mapM (fun t => (parseStr t).map (fun v => (if signed then v.map signedUnit else v, t))) with
+  | none => "bad-op"
+  | some elems =>
+    match sortTaggedT Str.lt Str.gt Str.le Str.ge asc elems with
+    | some out => out
+    | none => "model-fault"
+
+/-! #### The insertion-ordered hash array as far as `Sort` sees it: slots in storage order
+(`key, value, live`), the capacity (a removed slot keeps its place until the next growth;
+`HArray::Get` grows when `Size() == Capacity()`, and growing drops removed slots). -/
+
+structure HA where
+  slots : Array Slot3 := #[]
+  cap : Nat := 0
+
+def alignSize (n : Nat) : Nat := Id.run do
+  let mut s := 1
+  for _ in [0:64] do
+    if s < n then s := s * 2
+  return s
+
+def HA.insert (h : HA) (key : List Nat) (val : Nat) : HA :=
+  let h := if h.slots.size == h.cap then
+      let n := ((if h.cap == 0 then 1 else 0) + h.cap) * 2
+      { slots := h.slots.filter (·.2.2), cap := alignSize (n + n % 2) }
+    else h
+  match h.slots.findIdx? (fun s => s.2.2 && s.1 == key) with
+  | some i => { h with slots := h.slots.modify i (fun s => (s.1, val, s.2.2)) }
+  | none => { h with slots := h.slots.push (key, val, true) }
+
+def HA.remove (h : HA) (key : List Nat) : HA :=
+  match h.slots.findIdx? (fun s => s.2.2 && s.1 == key) with
+  | some i => { h with slots := h.slots.modify i (fun _ => ([], 0, false)) }
+  | none => h
+
+def showSlot (s : Slot3) : String := if s.2.2 then showStr s.1 ++ "=" ++ toString s.2.1 else "~"
+
+def showSlots (a : Array Slot3) : String := showList (a.toList.map showSlot)
+
+def applyOp (h : HA) (t : String) : Option HA :=
+  if t.startsWith "+" then
+    match ((t.drop 1).toString).splitOn "=" with
+    | [k, v] => do
+      let key ← parseStr k
+      let val ← v.toNat?
+      some (h.insert key val)
+    | _ => none
+  else if t.startsWith "!" then (parseStr (t.drop 1).toString).map h.remove
+  else none
+
+def sortObject (asc : Bool) (ops : List String) : String :=
+  match ops.foldlM applyOp ({} : HA) with
+  | none => "bad-op"
+  | some h =>
+    match arraySort (fun (x y : Slot3) => Str.lt x.1 y.1) (fun x y => Str.gt x.1 y.1) asc h.slots with
+    | some out => showSlots h.slots ++ " " ++ showSlots out ++ " " ++
+        showBits (pairsTable (fun (x y : Slot3) => if asc then Str.lt x.1 y.1 else Str.gt x.1 y.1) out.toList) ++ " " ++
+        showBits (chainTable (fun (x y : Slot3) => if asc then Str.le x.1 y.1 else Str.ge x.1 y.1) out.toList) ++
+        " lookups-ok"
+    | none => "model-fault"
+
+/-- What `{raw:v}` prints for the element kinds the loop stream uses. -/
+def renderTok (t : String) : Option (List Nat) :=
+  match parseValue t with
+  | some (.str s) => some s
+  | some (.nat n) => some ((toString n).toList.map Char.toNat)
+  | _ => none
+
+def loopLine (asc : Bool) (toks : List String) : String :=
+  match toks.mapM (fun t => (parseValue t).map (fun v => (v, t))) with
+  | none => "bad-op"
+  | some elems =>
+    match sortTagged Val.lt Val.gt asc elems with
+    | none => "model-fault"
+    | some out =>
+      match out.mapM renderTok with
+      | none => "bad-op"
+      | some parts => showNats (parts.foldr (fun p acc => p ++ 44 :: acc) [])
+
+/-! ### Oracles (the C15 predicates on implementation results) -/
+
+def oraclePair (ab ba : String) : String :=
+  match parseObs ab, parseObs ba with
+  | some x, some y =>
+    if !x.consistent then "inconsistent" else if !y.consistent then "inconsistent-swapped"
+    else if !x.dual y then "not-dual" else "ok"
+  | _, _ => "bad-op"
+
+def oracleTri (ab bc ac : String) : String :=
+  match parseObs ab, parseObs bc, parseObs ac with
+  | some x, some y, some z => if Obs.trans x y z then "ok" else "not-transitive"
+  | _, _, _ => "bad-op"
+
+def oracleLex (signed : Bool) (a b ab : String) : String :=
+  match parseStr a, parseStr b, parseObs ab with
+  | some x, some y, some o =>
+    let x := if signed then x.map signedUnit else x
+    let y := if signed then y.map signedUnit else y
+    if o.lt == lexLt x y && o.eq == (x == y) then "ok" else "not-lexicographic"
+  | _, _, _ => "bad-op"
+
+def parseBits (s : String) : Option (List Bool) :=
+  if s == "-" then some [] else s.toList.mapM (fun c => if c == '1' then some true else if c == '0' then some false else none)
+
+/-- Ordered permutation, judged by the implementation's own comparisons of its result. -/
+def oracleSortTable (inp out : List String) (bits chain : String) : String :=
+  if !isPermOf out inp then "not-permutation" else
+  match parseBits bits, parseBits chain with
+  | some b, some c =>
+    if b.length != out.length * (out.length - 1) / 2 || c.length != b.length then "bad-table"
+    else if !tableOrdered b then "not-ordered"
+    else if !tableChain c then "not-a-chain" else "ok"
+  | _, _ => "bad-op"
+
+def oracleSort {β : Type} (before : β → β → Bool) (parse : String → Option β) (inp out : List String) : String :=
+  if !isPermOf out inp then "not-permutation" else
+  match out.mapM parse with
+  | none => "bad-op"
+  | some vs => if orderedBy before vs then "ok" else "not-ordered"
+
+/-- Split rendered units at every comma (44); the text ends with a comma. -/
+def splitPieces (l : List Nat) : List (List Nat) :=
+  let r := l.foldl (fun (acc : List (List Nat) × List Nat) u =>
+    if u == 44 then (acc.2.reverse :: acc.1, []) else (acc.1, u :: acc.2)) ([], [])
+  r.1.reverse
+
+/-- The loop printed each element of the set once, in the order asked for: the pieces are a
+    rearrangement of the elements' texts and the elements they stand for are ordered. -/
+def oracleLoop (asc : Bool) (toks : List String) (rendered : List Nat) : String :=
+  match toks.mapM (fun t => do let v ← parseValue t; let p ← renderTok t; some (p, v)) with
+  | none => "bad-op"
+  | some tbl =>
+    let pieces := splitPieces rendered
+    if !isPermOf pieces (tbl.map (·.1)) then "not-permutation" else
+    match pieces.mapM (fun p => (tbl.find? (fun e => e.1 == p)).map (·.2)) with
+    | none => "not-permutation"
+    | some vs => if orderedBy (if asc then Val.lt else Val.gt) vs then "ok" else "not-ordered"
+
+def slotKey (t : String) : Option (List Nat) :=
+  if t == "~" then some [] else
+  match t.splitOn "=" with
+  | [k, _] => parseStr k
+  | _ => none
+
+def asc? (s : String) : Option Bool := parseBool s
+
+def handle (op : String) (args : List String) : String :=
+  match op, args with
+  | "ordstr", [_w, a, b] =>
+    match parseStr a, parseStr b with
+    | some x, some y => strLine x y
+    | _, _ => "bad-op"
+  | "ordstrs", [_w, a, b] =>
+    match parseStr a, parseStr b with
+    | some x, some y => strLine (x.map signedUnit) (y.map signedUnit)
+    | _, _ => "bad-op"
+  | "ordval", [a, b] =>
+    match parseValue a, parseValue b with
+    | some x, some y => obsBits (obsVal x y)
+    | _, _ => "bad-op"
+  | "ordsortv", [a, l] => match asc? a with | some a => sortValues a (parseList l) | none => "bad-op"
+  | "ordsorta", [a, l] => match asc? a with | some a => sortValues a (parseList l) | none => "bad-op"
+  | "ordsorts", [a, w, l] =>
+    match asc? a with | some a => sortStrings a (w == "1s") (parseList l) | none => "bad-op"
+  | "ordsorto", [a, l] => match asc? a with | some a => sortObject a (parseList l) | none => "bad-op"
+  | "ordsorth", [a, l] => match asc? a with | some a => sortObject a (parseList l) | none => "bad-op"
+  | "ordloop", [a, l] => match asc? a with | some a => loopLine a (parseList l) | none => "bad-op"
+  | "ordoracleloop", [a, i, o] =>
+    match asc? a, parseNats o with
+    | some a, some u => oracleLoop a (parseList i) u
+    | _, _ => "bad-op"
+  | "ordoraclepair", [ab, ba] => oraclePair ab ba
+  | "ordoracletri", [ab, bc, ac] => oracleTri ab bc ac
+  | "ordoraclelex", [a, b, ab] => oracleLex false a b ab
+  | "ordoraclelexs", [a, b, ab] => oracleLex true a b ab
+  | "ordoraclesort", [i, o, bits, chain] => oracleSortTable (parseList i) (parseList o) bits chain
+  | "ordoraclesortv", [a, i, o] =>
+    match asc? a with
+    | some a => oracleSort (if a then Val.lt else Val.gt) parseValue (parseList i) (parseList o)
+    | none => "bad-op"
+  | "ordoraclesorts", [a, i, o] =>
+    match asc? a with
+    | some a => oracleSort (if a then Str.lt else Str.gt) parseStr (parseList i) (parseList o)
+    | none => "bad-op"
+  | "ordoraclesortss", [a, i, o] =>
+    match asc? a with
+    | some a => oracleSort (if a then Str.lt else Str.gt) (fun t => (parseStr t).map (·.map signedUnit))
+                  (parseList i) (parseList o)
+    | none => "bad-op"
+  | "ordoraclesorto", [a, i, o] =>
+    match asc? a with
+    | some a => oracleSort (if a then Str.lt else Str.gt) slotKey (parseList i) (parseList o)
+    | none => "bad-op"
+  | _, _ => "bad-op"
 
 end Qentem.Driver.Order
